@@ -234,3 +234,515 @@ func E11InPlaceInLoop(c *core.Ctx, r *core.Report) {
 		r.OK("E11.accumulate", "canvas|no accumulating in-place transform", "", fmt.Sprintf("%d in-place calls inside loops examined", sites))
 	}
 }
+
+// ---- Context / Canvas rules (C15) ----
+
+func ctxFieldPath(info *types.Info, e ast.Expr, recv types.Object) ([]string, bool) {
+	// returns the selector names from the receiver to the selected field, e.g. c.Style.Fill -> [Style Fill]
+	var names []string
+	for {
+		switch x := core.Unparen(e).(type) {
+		case *ast.SelectorExpr:
+			names = append([]string{x.Sel.Name}, names...)
+			e = x.X
+			continue
+		case *ast.IndexExpr:
+			e = x.X
+			continue
+		case *ast.Ident:
+			if core.ObjOf(info, x) == recv {
+				return names, true
+			}
+		}
+		return nil, false
+	}
+}
+
+// E11ContextState: setters, Push/Pop, Fill/Stroke save-restore.
+func E11ContextState(c *core.Ctx, r *core.Report) {
+	r.Rule("E11.ctx-setter", "every exported Set*/Reset* method of Context stores only into fields of ContextState (style, view, coordinate view/system), never into the stack, the pending path or the renderer")
+	r.Rule("E11.ctx-stack", "Push appends the whole ContextState value to the stack; Pop (guarded against an empty stack) restores the whole last element and shrinks the stack by exactly one")
+	r.Rule("E11.ctx-restore", "Fill clears and restores exactly Style.Stroke around its DrawPath, Stroke exactly Style.Fill, on every exit")
+	p := c.MustPkg("")
+	info := p.TypesInfo
+	ctxObj := p.Types.Scope().Lookup("Context")
+	csObj := p.Types.Scope().Lookup("ContextState")
+	if ctxObj == nil || csObj == nil {
+		panic(core.Infra("Context/ContextState types not found"))
+	}
+	stateFields := map[string]bool{"ContextState": true}
+	st := csObj.Type().Underlying().(*types.Struct)
+	for i := 0; i < st.NumFields(); i++ {
+		stateFields[st.Field(i).Name()] = true
+		if st.Field(i).Embedded() {
+			if es, ok := st.Field(i).Type().Underlying().(*types.Struct); ok {
+				for j := 0; j < es.NumFields(); j++ {
+					stateFields[es.Field(j).Name()] = true
+				}
+			}
+		}
+	}
+	nSetters := 0
+	for _, fd := range core.AllFuncDecls(p) {
+		if core.RecvName(fd) != "Context" || !fd.Name.IsExported() {
+			continue
+		}
+		name := fd.Name.Name
+		if !(strings.HasPrefix(name, "Set") || strings.HasPrefix(name, "Reset")) {
+			continue
+		}
+		nSetters++
+		recv := recvObj(info, fd)
+		key := "canvas.Context." + name
+		r.Func(key)
+		bad := ""
+		stores := 0
+		ast.Inspect(fd.Body, func(n ast.Node) bool {
+			as, ok := n.(*ast.AssignStmt)
+			if !ok {
+				return true
+			}
+			for _, l := range as.Lhs {
+				names, rooted := ctxFieldPath(info, l, recv)
+				if !rooted {
+					continue // local variable
+				}
+				stores++
+				if len(names) == 0 || !stateFields[names[0]] {
+					bad = fmt.Sprintf("stores into c.%s, which is not part of the saved/restored ContextState", strings.Join(names, "."))
+				}
+			}
+			return true
+		})
+		if bad != "" {
+			r.Fail("E11.ctx-setter", key, c.Pos(fd.Pos()), bad)
+		} else if stores == 0 {
+			// a setter that only forwards to the renderer (SetZIndex) keeps no state in the context
+			r.OK("E11.ctx-setter", key, c.Pos(fd.Pos()), "stores nothing in the context (forwards to the renderer)")
+		} else {
+			r.OK("E11.ctx-setter", key, c.Pos(fd.Pos()), fmt.Sprintf("%d stores", stores))
+		}
+	}
+	r.Count("E11.ctx-setters", nSetters)
+	r.Floor("E11.ctx-setters", 20)
+
+	// Push / Pop
+	push := core.MustFuncDecl(p, "Context.Push")
+	okPush := false
+	if len(push.Body.List) == 1 {
+		if as, ok := push.Body.List[0].(*ast.AssignStmt); ok && len(as.Lhs) == 1 && len(as.Rhs) == 1 {
+			if types.ExprString(as.Lhs[0]) == "c.stack" && strings.ReplaceAll(types.ExprString(as.Rhs[0]), " ", "") == "append(c.stack,c.ContextState)" {
+				okPush = true
+			}
+		}
+	}
+	if okPush {
+		r.OK("E11.ctx-stack", "canvas.Context.Push", c.Pos(push.Pos()), "c.stack = append(c.stack, c.ContextState)")
+	} else {
+		r.Fail("E11.ctx-stack", "canvas.Context.Push", c.Pos(push.Pos()), "Push is not `c.stack = append(c.stack, c.ContextState)`: part of the state (style, view, coordinate view or system) would not be saved")
+	}
+	pop := core.MustFuncDecl(p, "Context.Pop")
+	guard, restore, shrink := false, false, false
+	for _, s := range pop.Body.List {
+		switch x := s.(type) {
+		case *ast.IfStmt:
+			if strings.ReplaceAll(types.ExprString(x.Cond), " ", "") == "len(c.stack)==0" && len(x.Body.List) == 1 {
+				if _, ok := x.Body.List[0].(*ast.ReturnStmt); ok {
+					guard = true
+				}
+			}
+		case *ast.AssignStmt:
+			if len(x.Lhs) == 1 && len(x.Rhs) == 1 {
+				l, rr := types.ExprString(x.Lhs[0]), strings.ReplaceAll(types.ExprString(x.Rhs[0]), " ", "")
+				if l == "c.ContextState" && rr == "c.stack[len(c.stack)-1]" && !shrink {
+					restore = true
+				}
+				if l == "c.stack" && rr == "c.stack[:len(c.stack)-1]" && restore {
+					shrink = true
+				}
+			}
+		}
+	}
+	if guard && restore && shrink && len(pop.Body.List) == 3 {
+		r.OK("E11.ctx-stack", "canvas.Context.Pop", c.Pos(pop.Pos()), "guard; restore whole state; shrink by one")
+	} else {
+		r.Fail("E11.ctx-stack", "canvas.Context.Pop", c.Pos(pop.Pos()), fmt.Sprintf("Pop does not (guard=%v) return on an empty stack, (restore=%v) restore the whole ContextState from the last element and then (shrink=%v) drop exactly that element", guard, restore, shrink))
+	}
+
+	// Fill / Stroke
+	for fn, cleared := range map[string]string{"Context.Fill": "c.Style.Stroke", "Context.Stroke": "c.Style.Fill"} {
+		fd := core.MustFuncDecl(p, fn)
+		key := "canvas." + fn
+		var saved string
+		stage := 0 // 1 saved, 2 cleared, 3 drawn, 4 restored
+		hasReturn := false
+		for _, s := range fd.Body.List {
+			switch x := s.(type) {
+			case *ast.ReturnStmt:
+				hasReturn = true
+			case *ast.AssignStmt:
+				if len(x.Lhs) != 1 || len(x.Rhs) != 1 {
+					continue
+				}
+				l, rr := types.ExprString(x.Lhs[0]), types.ExprString(x.Rhs[0])
+				switch {
+				case stage == 0 && x.Tok == token.DEFINE && rr == cleared:
+					saved, stage = l, 1
+				case stage == 1 && l == cleared && rr == "Paint{}":
+					stage = 2
+				case stage == 3 && l == cleared && rr == saved:
+					stage = 4
+				case l == "c.Style.Fill" || l == "c.Style.Stroke":
+					stage = -10 // some other paint is modified
+				}
+			case *ast.ExprStmt:
+				if call, ok := x.X.(*ast.CallExpr); ok {
+					if f := core.CalleeOf(info, call); f != nil && f.Name() == "DrawPath" && stage == 2 {
+						stage = 3
+					}
+				}
+			}
+		}
+		ast.Inspect(fd.Body, func(n ast.Node) bool {
+			if _, ok := n.(*ast.ReturnStmt); ok {
+				hasReturn = true
+			}
+			return true
+		})
+		if stage == 4 && !hasReturn {
+			r.OK("E11.ctx-restore", key, c.Pos(fd.Pos()), "save "+cleared+"; clear; DrawPath; restore")
+		} else {
+			r.Fail("E11.ctx-restore", key, c.Pos(fd.Pos()), fmt.Sprintf("%s does not save, clear and restore exactly %s around its DrawPath on every exit (reached stage %d, early return %v): a later draw would use the wrong paint", fn, cleared, stage, hasReturn))
+		}
+	}
+}
+
+// E11ViewComposition: view helpers post-multiply; draw entry points assemble the same matrix.
+func E11ViewComposition(c *core.Ctx, r *core.Report) {
+	r.Rule("E11.view-postmul", "each Context view method M (Translate, Rotate, Scale, Shear, Reflect*, *About) is `c.view = c.view.Mul(Identity.M(its own parameters in order))` and ComposeView is `c.view = c.view.Mul(view)`: the new transformation is post-multiplied and is the one the method is named after")
+	r.Rule("E11.draw-matrix", "FitImage, DrawPath, DrawText and DrawImage all build CoordSystemView().Mul(view).Translate(coordView.Dot(x,y)) (sibling agreement), and compensate text/images with a Y reflection exactly in the coordinate systems whose CoordSystemView reflects Y and an X reflection exactly where it reflects X")
+	p := c.MustPkg("")
+	info := p.TypesInfo
+	methods := []string{"Translate", "ReflectX", "ReflectXAbout", "ReflectY", "ReflectYAbout", "Rotate", "RotateAbout", "Scale", "ScaleAbout", "Shear", "ShearAbout"}
+	nosp := func(s string) string { return strings.ReplaceAll(s, " ", "") }
+	for _, m := range append([]string{"ComposeView"}, methods...) {
+		fd := core.MustFuncDecl(p, "Context."+m)
+		key := "canvas.Context." + m
+		r.Func(key)
+		var params []string
+		for _, f := range fd.Type.Params.List {
+			for _, n := range f.Names {
+				params = append(params, n.Name)
+			}
+		}
+		want := "c.view.Mul(Identity." + m + "(" + strings.Join(params, ",") + "))"
+		if m == "ComposeView" {
+			want = "c.view.Mul(" + params[0] + ")"
+		}
+		ok := false
+		got := ""
+		if len(fd.Body.List) == 1 {
+			if as, isAs := fd.Body.List[0].(*ast.AssignStmt); isAs && as.Tok == token.ASSIGN && len(as.Lhs) == 1 && len(as.Rhs) == 1 && types.ExprString(as.Lhs[0]) == "c.view" {
+				got = nosp(types.ExprString(as.Rhs[0]))
+				ok = got == want
+			}
+		}
+		r.Count("E11.view-methods", 1)
+		if ok {
+			r.OK("E11.view-postmul", key, c.Pos(fd.Pos()), want)
+		} else {
+			r.Fail("E11.view-postmul", key, c.Pos(fd.Pos()), fmt.Sprintf("body is `%s`, expected `c.view = %s` (post-multiplication by the transformation of the same name, parameters in order)", got, want))
+		}
+	}
+	r.Floor("E11.view-methods", 12)
+
+	// CoordSystemView table: which systems reflect X / Y
+	csv := core.MustFuncDecl(p, "Context.CoordSystemView")
+	reflX, reflY := map[string]bool{}, map[string]bool{}
+	ast.Inspect(csv.Body, func(n ast.Node) bool {
+		cc, ok := n.(*ast.CaseClause)
+		if !ok || len(cc.Body) != 1 {
+			return true
+		}
+		ret, ok := cc.Body[0].(*ast.ReturnStmt)
+		if !ok {
+			return true
+		}
+		s := types.ExprString(ret.Results[0])
+		for _, k := range core.CaseConsts(info, cc) {
+			if strings.Contains(s, "ReflectXAbout(c.Width()") {
+				reflX[k] = true
+			}
+			if strings.Contains(s, "ReflectYAbout(c.Height()") {
+				reflY[k] = true
+			}
+		}
+		return true
+	})
+	wantX, wantY := map[string]bool{"CartesianII": true, "CartesianIII": true}, map[string]bool{"CartesianIII": true, "CartesianIV": true}
+	if setEq(reflX, wantX) && setEq(reflY, wantY) {
+		r.OK("E11.draw-matrix", "canvas.Context.CoordSystemView|table", c.Pos(csv.Pos()), "X reflected in II,III; Y reflected in III,IV (origin at the corresponding corner)")
+	} else {
+		r.Fail("E11.draw-matrix", "canvas.Context.CoordSystemView|table", c.Pos(csv.Pos()), fmt.Sprintf("X is reflected about the canvas centre in {%s} and Y in {%s}; quadrant II/III need X and III/IV need Y", setStr(reflX), setStr(reflY)))
+	}
+	// draw entry points
+	for _, fn := range []string{"FitImage", "DrawPath", "DrawText", "DrawImage"} {
+		fd := core.MustFuncDecl(p, "Context."+fn)
+		key := "canvas.Context." + fn
+		r.Func(key)
+		// unfold the chain that ends in .Translate(coord.X, coord.Y)
+		defs := map[string]string{}
+		var chainStr string
+		coordOK := false
+		for _, s := range fd.Body.List {
+			as, ok := s.(*ast.AssignStmt)
+			if !ok || len(as.Lhs) != 1 || len(as.Rhs) != 1 {
+				continue
+			}
+			l, rr := types.ExprString(as.Lhs[0]), nosp(c.Src(as.Rhs[0]))
+			if l == "coord" {
+				coordOK = strings.HasPrefix(rr, "c.coordView.Dot(Point{") && (strings.Contains(rr, "{x,y}") || strings.Contains(rr, "{X:x,Y:y}"))
+			}
+			if strings.Contains(rr, ".Translate(coord.X,coord.Y)") && chainStr == "" {
+				// substitute a leading local by its definition
+				for name, d := range defs {
+					if strings.HasPrefix(rr, name+".") {
+						rr = d + rr[len(name):]
+					}
+				}
+				chainStr = rr
+			}
+			defs[l] = rr
+		}
+		want := "c.CoordSystemView().Mul(c.view).Translate(coord.X,coord.Y)"
+		if chainStr == want && coordOK {
+			r.OK("E11.draw-matrix", key+"|matrix", c.Pos(fd.Pos()), want)
+		} else {
+			r.Fail("E11.draw-matrix", key+"|matrix", c.Pos(fd.Pos()), fmt.Sprintf("the draw matrix is `%s` (coord from coordView.Dot(x,y): %v); the sibling entry points use `%s`", chainStr, coordOK, want))
+		}
+		if fn == "DrawPath" {
+			continue
+		}
+		// compensation conditions
+		gotX, gotY := map[string]bool{}, map[string]bool{}
+		for _, s := range fd.Body.List {
+			is, ok := s.(*ast.IfStmt)
+			if !ok || len(is.Body.List) != 1 {
+				continue
+			}
+			bas, isAs := is.Body.List[0].(*ast.AssignStmt)
+			if !isAs || len(bas.Rhs) != 1 {
+				continue
+			}
+			body := nosp(types.ExprString(bas.Rhs[0]))
+			set := map[string]bool{}
+			okCond := true
+			var collect func(e ast.Expr)
+			collect = func(e ast.Expr) {
+				be, ok := core.Unparen(e).(*ast.BinaryExpr)
+				if !ok {
+					okCond = false
+					return
+				}
+				if be.Op == token.LOR {
+					collect(be.X)
+					collect(be.Y)
+					return
+				}
+				if be.Op == token.EQL && types.ExprString(be.X) == "c.coordSystem" {
+					set[core.ConstName(info, be.Y)] = true
+					return
+				}
+				okCond = false
+			}
+			collect(is.Cond)
+			if !okCond {
+				continue
+			}
+			switch {
+			case strings.HasPrefix(body, "m.ReflectY"):
+				for k := range set {
+					gotY[k] = true
+				}
+			case strings.HasPrefix(body, "m.ReflectX"):
+				for k := range set {
+					gotX[k] = true
+				}
+			}
+		}
+		if setEq(gotX, reflX) && setEq(gotY, reflY) {
+			r.OK("E11.draw-matrix", key+"|upright compensation", c.Pos(fd.Pos()), "reflects back exactly where CoordSystemView reflects")
+		} else {
+			r.Fail("E11.draw-matrix", key+"|upright compensation", c.Pos(fd.Pos()), fmt.Sprintf("compensates X in {%s} and Y in {%s}, but CoordSystemView reflects X in {%s} and Y in {%s}: text/images come out mirrored in some coordinate system", setStr(gotX), setStr(gotY), setStr(reflX), setStr(reflY)))
+		}
+	}
+}
+
+// E11Replay: RenderViewTo replays in ascending z-index, then drawing order, outside any map range.
+func E11Replay(c *core.Ctx, r *core.Report) {
+	r.Rule("E11.replay-order", "Canvas.RenderViewTo collects the z-indices, sorts them ascending, and only then calls the renderer, iterating the sorted indices and each layer slice in order; no renderer call happens inside a range over the layers map; recording appends to the slice of the current z-index")
+	p := c.MustPkg("")
+	info := p.TypesInfo
+	fd := core.MustFuncDecl(p, "Canvas.RenderViewTo")
+	r.Func("canvas.Canvas.RenderViewTo")
+	stage := 0
+	var zs string
+	bad := ""
+	for _, s := range fd.Body.List {
+		switch x := s.(type) {
+		case *ast.RangeStmt:
+			_, isMap := info.TypeOf(x.X).Underlying().(*types.Map)
+			hasRender := false
+			ast.Inspect(x.Body, func(n ast.Node) bool {
+				if call, ok := n.(*ast.CallExpr); ok {
+					if se, ok := call.Fun.(*ast.SelectorExpr); ok && strings.HasPrefix(se.Sel.Name, "Render") {
+						hasRender = true
+					}
+				}
+				return true
+			})
+			if isMap {
+				if hasRender {
+					bad = "the renderer is called inside a range over the layers map (random order)"
+				}
+				if stage == 1 && x.Value == nil {
+					stage = 2
+				}
+			} else if hasRender {
+				if stage == 3 && types.ExprString(x.X) == zs {
+					// inner loop must range over c.layers[zindex] by index order
+					inner := false
+					for _, is := range x.Body.List {
+						if ir, ok := is.(*ast.RangeStmt); ok && strings.HasPrefix(types.ExprString(ir.X), "c.layers[") {
+							inner = true
+						}
+					}
+					if inner {
+						stage = 4
+					}
+				} else {
+					bad = "renderer calls happen before the z-indices are sorted"
+				}
+			}
+		case *ast.AssignStmt:
+			if stage == 0 && len(x.Lhs) == 1 {
+				zs = types.ExprString(x.Lhs[0])
+				stage = 1
+			}
+		case *ast.ExprStmt:
+			if call, ok := x.X.(*ast.CallExpr); ok && stage == 2 {
+				if f := core.CalleeOf(info, call); f != nil && f.Pkg() != nil && f.Pkg().Path() == "sort" && f.Name() == "Ints" && types.ExprString(call.Args[0]) == zs {
+					stage = 3
+				}
+			}
+		}
+	}
+	if stage == 4 && bad == "" {
+		r.OK("E11.replay-order", "canvas.Canvas.RenderViewTo", c.Pos(fd.Pos()), "collect z-indices; sort.Ints; replay per z-index in slice order")
+	} else {
+		if bad == "" {
+			bad = fmt.Sprintf("the collect / sort.Ints / replay sequence was not found (stage %d)", stage)
+		}
+		r.Fail("E11.replay-order", "canvas.Canvas.RenderViewTo", c.Pos(fd.Pos()), bad)
+	}
+	// recording appends
+	for _, m := range []string{"RenderPath", "RenderText", "RenderImage"} {
+		fd := core.MustFuncDecl(p, "Canvas."+m)
+		ok := false
+		ast.Inspect(fd.Body, func(n ast.Node) bool {
+			if as, isAs := n.(*ast.AssignStmt); isAs && len(as.Lhs) == 1 && len(as.Rhs) == 1 {
+				l := strings.ReplaceAll(types.ExprString(as.Lhs[0]), " ", "")
+				rr := strings.ReplaceAll(types.ExprString(as.Rhs[0]), " ", "")
+				if l == "c.layers[c.zindex]" && strings.HasPrefix(rr, "append(c.layers[c.zindex],") {
+					ok = true
+				}
+			}
+			return true
+		})
+		key := "canvas.Canvas." + m + "|records in drawing order"
+		if ok {
+			r.OK("E11.replay-order", key, c.Pos(fd.Pos()), "c.layers[c.zindex] = append(c.layers[c.zindex], …)")
+		} else {
+			r.Fail("E11.replay-order", key, c.Pos(fd.Pos()), "the operation is not appended to the layer slice of the current z-index")
+		}
+	}
+}
+
+// E11CutCarried: in SplitAt's cut loops the previous cut position is carried into the next cut.
+func E11CutCarried(c *core.Ctx, r *core.Report) {
+	r.Rule("E11.cut-carried", "Path.SplitAt: in every curve case's cut loop the cut parameter t := invL(…) is saved into a variable declared before the loop (V = t), and V is read inside the loop: each cut splits the remaining piece relative to the previous cut, not relative to the start of the whole segment (sibling agreement between the quadratic, cubic and arc cases)")
+	p := c.MustPkg("")
+	info := p.TypesInfo
+	fd := core.MustFuncDecl(p, "Path.SplitAt")
+	r.Func("canvas.Path.SplitAt")
+	n := 0
+	for _, cc := range cmdSwitchClauses(p, fd) {
+		label := core.CaseLabel(info, cc)
+		ast.Inspect(cc, func(nd ast.Node) bool {
+			fs, ok := nd.(*ast.ForStmt)
+			if !ok || fs.Init != nil || fs.Post != nil || fs.Cond == nil {
+				return true
+			}
+			// find `t := invL(…)`: a call of a local function value
+			var cutVar types.Object
+			for _, s := range fs.Body.List {
+				as, ok := s.(*ast.AssignStmt)
+				if !ok || as.Tok != token.DEFINE || len(as.Lhs) != 1 || len(as.Rhs) != 1 {
+					continue
+				}
+				call, ok := core.Unparen(as.Rhs[0]).(*ast.CallExpr)
+				if !ok {
+					continue
+				}
+				if id, ok := call.Fun.(*ast.Ident); ok {
+					if v, ok := core.ObjOf(info, id).(*types.Var); ok {
+						if _, isSig := v.Type().Underlying().(*types.Signature); isSig {
+							cutVar = info.Defs[as.Lhs[0].(*ast.Ident)]
+						}
+					}
+				}
+			}
+			if cutVar == nil {
+				return true
+			}
+			n++
+			key := fmt.Sprintf("canvas.Path.SplitAt|%s|cut loop", label)
+			// V = t
+			var carried types.Object
+			var carryStmt ast.Node
+			for _, s := range fs.Body.List {
+				as, ok := s.(*ast.AssignStmt)
+				if !ok || as.Tok != token.ASSIGN || len(as.Lhs) != 1 || len(as.Rhs) != 1 {
+					continue
+				}
+				if rid, ok := core.Unparen(as.Rhs[0]).(*ast.Ident); ok && core.ObjOf(info, rid) == cutVar {
+					if lid, ok := as.Lhs[0].(*ast.Ident); ok {
+						carried, carryStmt = core.ObjOf(info, lid), as
+					}
+				}
+			}
+			if carried == nil {
+				r.Fail("E11.cut-carried", key, c.Pos(fs.Pos()), "the cut parameter is not saved for the next iteration: the second cut of one segment would be computed from the segment's start")
+				return true
+			}
+			read := false
+			ast.Inspect(fs.Body, func(m ast.Node) bool {
+				if m == carryStmt {
+					return false
+				}
+				if id, ok := m.(*ast.Ident); ok && core.ObjOf(info, id) == carried {
+					read = true
+				}
+				return true
+			})
+			if read {
+				r.OK("E11.cut-carried", key, c.Pos(fs.Pos()), carried.Name()+" carries the previous cut and is read in the loop")
+			} else {
+				r.Fail("E11.cut-carried", key, c.Pos(fs.Pos()), fmt.Sprintf("`%s` remembers the previous cut position but is never read inside the cut loop: a second cut within the same segment is made relative to the segment's start instead of the previous cut (the siblings use it)", carried.Name()))
+			}
+			return true
+		})
+	}
+	r.Count("E11.cut-loops", n)
+	r.Floor("E11.cut-loops", 3)
+}
